@@ -20,6 +20,7 @@ type op14 struct {
 	T    int    `json:"transfer,omitempty"`
 	No   uint16 `json:"no,omitempty"`
 	Ms   int64  `json:"ms,omitempty"`
+	Ser  uint16 `json:"first_serial,omitempty"` // pkt with no == 1 after the start: the transfer is re-started with this new first-packet serial
 }
 
 type c14Case struct {
@@ -31,6 +32,7 @@ type c14Case struct {
 
 // model14 is the reference model with its own clock (milliseconds).
 type tr14 struct {
+	first             uint16
 	open              bool
 	created, progress int64
 	slots             []bool
@@ -96,7 +98,11 @@ func (m *model14) step(c *c14Case, o op14) expect14 {
 		t := &m.tr[o.T]
 		n := len(c.Transfers[o.T].Bodies)
 		if o.No == 1 {
-			*t = tr14{open: true, created: m.now, progress: m.now, slots: make([]bool, n), everExpired: t.everExpired}
+			first := c.Serials[o.T]
+			if o.Ser != 0 {
+				first = o.Ser
+			}
+			*t = tr14{first: first, open: true, created: m.now, progress: m.now, slots: make([]bool, n), everExpired: t.everExpired}
 		}
 		if t.open && o.No >= 1 && int(o.No) <= n {
 			t.slots[o.No-1] = true
@@ -181,6 +187,10 @@ func genC14(t *rapid.T) c14Case {
 				add(op14{Kind: "pkt", T: k, No: no})
 			}
 		case 2: // short pause then trigger: nothing may be re-requested twice
+			if k := rapid.IntRange(0, nT-1).Draw(t, "rk"); m.tr[k].open && rapid.IntRange(0, 2).Draw(t, "restart") == 0 {
+				// the terminal gives up the incomplete transfer and starts the same message ID again with a new first packet
+				add(op14{Kind: "pkt", T: k, No: 1, Ser: uint16(20000 + 100*k + len(c.Ops))})
+			}
 			add(op14{Kind: "advance", Ms: safeAdvance(int64(rapid.IntRange(10, 3500).Draw(t, "short")))})
 			add(op14{Kind: "trigger"})
 		case 3, 4: // idle beyond 5 s, then inbound data that is not a packet
@@ -213,6 +223,7 @@ func checkC14(c c14Case, _ *kit.Collector) kit.Result {
 	m := &model14{tr: make([]tr14, len(c.Transfers))}
 	serial := uint16(7)
 	crossed5, crossed60, multiMissing, rounds := false, false, false, 0
+	restarted := false
 	start := time.Now()
 	var virt int64
 	feed := func(o op14, data []byte, idx int) string {
@@ -265,9 +276,9 @@ func checkC14(c c14Case, _ *kit.Collector) kit.Result {
 		}
 		for k := range c.Transfers {
 			want, must := exp.rereq[k]
-			g, has := got[c.Serials[k]]
+			g, has := got[m.tr[k].first]
 			if must != has {
-				return fmt.Sprintf("op %d (%s) at model time %d ms: re-request for transfer %d (id %#04x, first serial %d): got=%v want=%v (missing %v)", idx, o.Kind, m.now, k, c.Transfers[k].ID, c.Serials[k], has, must, want)
+				return fmt.Sprintf("op %d (%s) at model time %d ms: re-request for transfer %d (id %#04x, first-packet serial %d): got=%v want=%v (missing %v; re-requests seen for serials %v)", idx, o.Kind, m.now, k, c.Transfers[k].ID, m.tr[k].first, has, must, want, got)
 			}
 			if must {
 				rounds++
@@ -309,6 +320,10 @@ func checkC14(c c14Case, _ *kit.Collector) kit.Result {
 			serial++
 			if o.No == 1 {
 				ser = c.Serials[o.T]
+				if o.Ser != 0 {
+					ser = o.Ser
+					restarted = true
+				}
 			}
 			f := frameSpec{ID: tr.ID, V2019: tr.V2019, Phone: phoneFor(tr.V2019), Serial: ser, Fragmented: true, Total: uint16(len(tr.Bodies)), No: o.No, Body: tr.Bodies[o.No-1]}
 			why = feed(o, f.bytes(), idx)
@@ -355,6 +370,7 @@ func checkC14(c c14Case, _ *kit.Collector) kit.Result {
 	lab(rounds >= 2, "rounds>=2")
 	lab(rounds == 0, "no_rerequest")
 	lab(len(c.Transfers) == 2, "two_transfers")
+	lab(restarted, "transfer_restarted")
 	lab(len(c.Transfers[0].Bodies) >= 10, "N>=10")
 	res.NT = multiMissing && crossed5
 	return res
